@@ -609,9 +609,25 @@ func (n *rNode) opRecv(x int, data []byte, note string) {
 		n.fail(fmt.Sprintf("envelope of step %d (%s) was not forwarded by G to the other peer within %v", len(n.h.Ops), note, rWait))
 	}
 	outs, ptrs := n.barrier(x)
+	n.normReq(&op, outs, ptrs)
 	st := rStep{Outs: outs}
 	n.monitor(&op, msg, from, false, before, &st, ptrs)
 	n.finish(op, &st, before, nil)
+}
+
+// a forwarded request is identified by the signed payload of this step's envelope when it is what that payload decodes to
+// (direct proto.Unmarshal), else by its own encoding
+func (n *rNode) normReq(op *rOp, outs [][2]string, ptrs []interface{}) {
+	if op.Kind != "req" {
+		return
+	}
+	payload, _ := hex.DecodeString(op.Payload)
+	want, ok := n.noteDecReq(payload)
+	for i := range outs {
+		if q, isReq := ptrs[i].(*gossipv1.ObservationRequest); isReq && outs[i][0] == "2" && ok && proto.Equal(q, want) {
+			outs[i][1] = op.Payload
+		}
+	}
 }
 
 // bytes handed to G's sendC: G publishes them itself, they loop back into G's own subscription
@@ -633,6 +649,7 @@ func (n *rNode) opLocalSend(data []byte, note string) {
 	}
 	n.h.Pubs = append(n.h.Pubs, "sendC:verbatim")
 	outs, ptrs := n.barrier(0)
+	n.normReq(&op, outs, ptrs)
 	st := rStep{Outs: outs}
 	n.monitor(&op, msg, n.id, true, before, &st, ptrs)
 	n.finish(op, &st, before, nil)
@@ -769,8 +786,7 @@ func (n *rNode) monitor(op *rOp, msg *gossipv1.GossipMessage, from peer.ID, loop
 			st.Mon = append(st.Mon, fmt.Sprintf("observation-request envelope had another effect: outputs %v, table +%d -%d ~%d", st.Outs, len(added), len(removed), len(changed)))
 		}
 		if bad == "" && nReq > 0 {
-			var q gossipv1.ObservationRequest
-			if nReq != 1 || proto.Unmarshal(s.ObservationRequest, &q) != nil || st.Outs[0][1] != rHex(rDetMarshal(&q)) {
+			if nReq != 1 || len(st.Outs) != 1 || st.Outs[0][1] != op.Payload {
 				st.Mon = append(st.Mon, "forwarded request differs from the decoded signed payload")
 			}
 		}
